@@ -195,7 +195,10 @@ def _worker(args):
         else:
             spec = dict(fault_spec, seed=seed) if fault_spec else None
             ff = faults_mod.build(spec)
-            if seed % 8 == 5:
+            if seed % 8 == 1 and mode in ('queue', 'skip', None):
+                h, _log = histories.queue_matrix_and_run(seed, on_job=on_job, mode=mode, cfg_override=cfg_override,
+                                                         fault_for=ff)
+            elif seed % 8 == 5:
                 h, _log = histories.conflict_and_run(seed, on_job=on_job, mode=mode, cfg_override=cfg_override,
                                                      fault_for=ff)
             elif seed % 4 == 3 and admin_jobs:
